@@ -262,6 +262,30 @@ def gen_scenario(rng: random.Random, feat: dict | None = None) -> dict:
                 scn["tries"][t] = (n_ + 1) * (m_ + 1)
         scn["fail_rate"] = rng.choice([0.3, 0.5])
         scn["submit_fail_rate"] = rng.choice([0.0, 0.2, 0.3])
+    if feat.get("bcast"):
+        # broadcast commands (harmless settings: the jobs are played by the harness), to all cycles, to existing
+        # cycles and to namespaces, set and cancelled, several within one main-loop iteration (one database flush)
+        scn["bcast"] = True
+        live = []
+        for tick in sorted(rng.randint(0, 8) for _ in range(rng.randint(1, 3))):
+            for _ in range(rng.choice([2, 2, 3, 4])):
+                if live and rng.random() < 0.4:
+                    # cancel a setting that is in force (in the same database flush as other settings that
+                    # share its cycle, namespace or key, or in a later one)
+                    pts, nss, st = live.pop(rng.randrange(len(live)))
+                    mode = "clear"
+                else:
+                    mode = "put" if rng.random() < 0.9 else "clear"
+                    pts = [rng.choice(["*", "*", str(fcp), str(rng.randint(icp, fcp))])]
+                    nss = [rng.choice(["root", "root", "root"] + tasks)]
+                    key = rng.choice(["VPA", "VPB"])
+                    st = rng.choice([{"environment": {key: str(rng.randint(1, 3))}}, {"script": "true"},
+                                     {"environment": {key: str(rng.randint(1, 3))}}])
+                    if mode == "put":
+                        live.append((pts, nss, st))
+                scn["ops"].append({"tick": tick, "cmd": "broadcast", "mode": mode, "points": pts,
+                                   "namespaces": nss, "settings": [st]})
+        scn["ops"].sort(key=lambda o: o["tick"])
     if feat.get("restart"):
         for _ in range(rng.choice([1, 1, 2])):
             scn["ops"].append({"tick": rng.randint(0, 10), "cmd": "restart",
